@@ -73,9 +73,20 @@ def scalarmult(rep, prog):
                                                             "an operand depends on a Scalar reduced mod L (%s)" % [f.local_name(l) for l in bad]),
                    loc=c.loc())
             # operands derive from the point and scalar parameters; output written from the product
-            pn = f.arg_local("n")
-            pp = f.arg_local("p")
-            pq = f.arg_local("q")
+            # public crypto_scalarmult(q, n, p) is positional
+            pq, pn, pp = (1, 2, 3) if f.key in {r_.key for r_ in roots} else (None, None, None)
+            if pq is None:
+                # a function the root forwards its parameters to
+                for r_ in roots:
+                    for c2 in r_.calls():
+                        if f in prog.callee_fns(c2):
+                            m = {}
+                            for i, a in enumerate(c2.args):
+                                ls = list(operand_locals(a))
+                                if ls:
+                                    m[cm.view_info(r_, ls[0])[0]] = i + 1
+                            if {1, 2, 3} <= set(m):
+                                pq, pn, pp = m[1], m[2], m[3]
             if pn and pp and pq:
                 rep.ob("PROV", "%s|operands" % f.path, pn in back and pp in back,
                        "product depends on scalar parameter n and point parameter p", loc=c.loc())
